@@ -22,6 +22,7 @@ impl Clone for X { fn clone(&self) -> X { CLONES.with(|c| c.set(c.get() + 1)); X
 #[derive(Debug, PartialEq)] pub struct Y(pub String);
 impl Clone for Y { fn clone(&self) -> Y { CLONES.with(|c| c.set(c.get() + 1)); Y(format!("c[{}]", self.0)) } }
 #[derive(Debug, PartialEq)] pub struct G<T>(pub String, pub T);
+pub trait Wt<X: ?Sized> {} impl<X: ?Sized> Wt<X> for u8 {}
 impl<T: Clone> Clone for G<T> { fn clone(&self) -> G<T> { CLONES.with(|c| c.set(c.get() + 1)); G(format!("c[{}]", self.0), self.1.clone()) } }
 '''
 
@@ -33,7 +34,7 @@ class C09(Prop):
             'Rhs absent/Self/other/&other/&Self, generics with Self in bounds and where-clause, Output with Self, requested '
             'sets, dump, error paths). Oracle: EXHAUSTIVE grid 10 operators (cycled) x base form (T/&T x Rhs/&Rhs) x Rhs in '
             '{default Self, other type} x requested lists {Op}, {OpAssign}, {Op,OpAssign}, {OpAssign,Op} and base OpAssign<Rhs|&Rhs> with {Op} x '
-            'generic/non-generic; the user body is non-commutative and records calls, the operand types count clones; every '
+            'non-generic / generic / generic with `Self` in an inline bound / in the where-clause; the user body is non-commutative and records calls, the operand types count clones; every '
             'generated form is executed and compared with the property statement (result, one call, clones exactly when received '
             'by reference but needed by value, borrowed operands unchanged); non-trivial = every oracle case')
 
@@ -45,13 +46,13 @@ class C09(Prop):
         out = []
         k = 0
         for tr, rhs_kind, rr, want, generic in itertools.product((False, True), ('self', 'other'), (False, True),
-                                                                 (['Op'], ['Asg'], ['Op', 'Asg'], ['Asg', 'Op']), (False, True)):
+                                                                 (['Op'], ['Asg'], ['Op', 'Asg'], ['Asg', 'Op']), (False, True, 'inlineSelf', 'whereSelf')):
             if rhs_kind == 'self' and tr != rr:
                 continue          # `impl Op for T`: Rhs defaults to Self, so the two forms coincide
             opn, fn = OPS[k % len(OPS)]
             k += 1
             out.append(self.mk(opn, fn, False, tr, rhs_kind, rr, want, generic))
-        for rhs_kind, rr, generic in itertools.product(('self', 'other'), (False, True), (False, True)):
+        for rhs_kind, rr, generic in itertools.product(('self', 'other'), (False, True), (False, True, 'inlineSelf', 'whereSelf')):
             if rhs_kind == 'self' and rr:
                 continue
             opn, fn = OPS[k % len(OPS)]
@@ -79,12 +80,19 @@ class C09(Prop):
                 'X ( format ! ( "({}-{})" , self . 0 , rhs . 0 ) )'
             fnsrc = 'fn %s ( self , rhs : R_ ) -> %s { tick ( ) ; %s }' % (fn, rt, ctor)
             members = [sx.m_type('Output', TX), sx.m_other(fnsrc)]
-        gen = sx.generics([sx.gp_ty('T', [sx.tb_trait(['Clone'])])]) if generic else None
+        # `Self` inside the impl's generics (inline bound / where-clause) means the user's self type in every derived impl
+        wt = sx.tb_trait([sx.seg('Wt', ('angle', [sx.gty(sx.tid('Self'))]))])
+        if generic == 'inlineSelf':
+            gen = sx.generics([sx.gp_ty('T', [sx.tb_trait(['Clone']), wt])])
+        elif generic == 'whereSelf':
+            gen = sx.generics([sx.gp_ty('T', [sx.tb_trait(['Clone'])])], [sx.wty(sx.tid('T'), [wt])])
+        else:
+            gen = sx.generics([sx.gp_ty('T', [sx.tb_trait(['Clone'])])]) if generic else None
         it = sx.impl(trait, this, members, gen=gen)
         names = [opn if w == 'Op' else opn + 'Assign' for w in want]
         req = sx.inv_attr(sx.dx([(n, None) for n in names]), it)
         meta = dict(features=('grid', opn, 'base-assign' if base_assign else 'base-op', 'self&' if tr else 'self',
-                              rhs_kind, 'rhs&' if rr else 'rhs', '+'.join(want), 'generic' if generic else 'plain'),
+                              rhs_kind, 'rhs&' if rr else 'rhs', '+'.join(want), ('generic' if generic is True else generic) if generic else 'plain'),
                     grid=True, op=opn, fn=fn, base_assign=base_assign, tr=tr, rhs_kind=rhs_kind, rr=rr, want=want,
                     generic=generic, nontrivial=True)
         return (req, meta, None)
